@@ -101,6 +101,12 @@ def outgoing(seed, tier):
         for end in ("close", "disconnect", "b.cut"):
             g.add([do("connect"), do("b.mode", mode="manual"), pub("a", 1, "C#1"), do("subscribe", subs=[["a", 1]]), pub("a", 2, "C#2"), do(end), do("wait", ms=5),
                    do("close")], sessfail={"reset": nth}, clean=True)
+    # Disconnect(timeout) while acknowledgements are missing: after the wait it still disconnects (DISCONNECT sent, connection closed,
+    # every unresolved future cancelled)
+    for q in (1, 2):
+        for to in (20, 60):
+            g.add([do("connect"), do("b.mode", mode="manual"), pub("a", q, "C#1"), do("subscribe", subs=[["a", 1]]), do("disconnect", timeout_ms=to), do("wait", ms=5),
+                   pub("a", 1, "C#2"), do("close")], clean=(q == 2))
     # a publish racing with the loss of the connection (die() runs without the API mutex) - buffered transport
     for q in (1, 2):
         g.add([do("connect"), pub("a", q, "C#1"), pub("a", q, "C#2", bg=True), do("wait", ms=20), do("b.cut"), do("wait", ms=30), do("release"), do("wait", ms=30),
@@ -218,6 +224,15 @@ def service(seed, tier):
         g.add([{"do": "svc.start"}, {"do": "wait", "ms": 20}, {"do": "b.mode", "mode": "manual"}, {"do": "svc.publish", "msg": {"topic": "a", "q": 1, "m": "S#1"}},
                {"do": "svc.publish", "msg": {"topic": "a", "q": 2, "m": "S#2"}}, {"do": "b.cut"}, {"do": "b.mode", "mode": "auto"}, {"do": "wait", "ms": 40},
                {"do": "svc.publish", "msg": {"topic": "a", "q": 1, "m": "S#3"}}, {"do": "wait", "ms": 20}, {"do": "svc.stop", "clear": True}], clean=clean)
+    # directed: Start from another goroutine while a slow Stop(true) is still under way (an unacknowledged publish makes the disconnect
+    # wait): the restart begins only after the stop is complete, commands issued after it are not touched by the old stop
+    for d in (4, 12):
+        g.add([{"do": "b.mode", "th": 0, "mode": "manual"}, {"do": "svc.start", "th": 0}, {"do": "wait", "th": 0, "ms": 25},
+               {"do": "svc.publish", "th": 0, "msg": {"topic": "a", "q": 1, "m": "S#1"}},
+               {"do": "wait", "th": 1, "ms": 50}, {"do": "svc.stop", "th": 1, "clear": True},
+               {"do": "wait", "th": 2, "ms": 50 + d}, {"do": "svc.start", "th": 2}, {"do": "svc.subscribe", "th": 2, "subs": [["a", 1]]},
+               {"do": "wait", "th": 2, "ms": 60}, {"do": "b.mode", "th": 2, "mode": "auto"}, {"do": "b.ack", "th": 2, "n": 0}, {"do": "wait", "th": 2, "ms": 30}],
+              mode="concurrent", clean=False)
     # directed: Start / Stop(true) / Start, then a drop while a publish is unacknowledged (the store must be protected again)
     g.add([{"do": "svc.start"}, {"do": "wait", "ms": 20}, {"do": "svc.stop", "clear": True}, {"do": "svc.start"}, {"do": "wait", "ms": 20}, {"do": "b.mode", "mode": "manual"},
            {"do": "svc.publish", "msg": {"topic": "a", "q": 1, "m": "S#1"}}, {"do": "b.cut"}, {"do": "b.mode", "mode": "auto"}, {"do": "wait", "ms": 50}, {"do": "svc.stop", "clear": False}], clean=False)
